@@ -31,10 +31,12 @@ ATTRS = {'step started': ('time',), 'step ended': (), 'event consumed': ('event'
          'state exited': ('state',), 'state entered': ('state',),
          'transition processed': ('source', 'target', 'event')}
 KSTATE = {'count': 0, 'target': None}
+IGN = {'ignore_contract': True}     # monitoring must not depend on how the monitored interpreter is configured
+IGN_MAX = {'quick': 3, 'thorough': 4}
 
 
 def make_spec(task):
-    tree, scheme, ivar, k = task
+    tree, scheme, ivar, k = task[:4]
     spec = add_scheme_S(flatten(tree, scheme, ivar), send_subset=True)
     for t in spec['transitions']:
         tid = t['tid']
@@ -215,7 +217,7 @@ def plain_sig(R0, r):
 
 def work(task):
     spec = make_spec(task)
-    R0 = engine.Runner(spec)
+    R0 = engine.Runner(spec, interp_kwargs=IGN if len(task) > 4 and task[4] else None)
     spec_by = {'s': {s['name']: s for s in spec['states']}, 't': {t['tid']: t for t in spec['transitions']}}
     user_names = {'u0', 'u1'}
     found = []
@@ -283,7 +285,7 @@ def work(task):
     res['violations'] = [v for v in res['violations'] if v['category'] == 'crash']
     res['found'] = found
     res['nviol'] = extra['nviol'] + len(res['violations'])
-    res['desc'] = describe(spec)
+    res['desc'] = describe(spec) + (' [ignore_contract]' if len(task) > 4 and task[4] else '')
     res['task'] = task
     res['extra'] = dict(extra)
     return res
@@ -296,6 +298,8 @@ def run(tier, seed):
         for tree in skeletons(nmin, nmax):
             for ivar in ((0, 1) if has_variant(tree) else (0,)):
                 tasks.append((tree, 'asc', ivar, k))
+    for tree in skeletons(2, IGN_MAX[tier]):
+        tasks.append((tree, 'asc', 0, 2, True))
     tasks.sort(key=lambda t: -len(repr(t[0])))
     results = harness.pmap(work, tasks)
     agg = harness.Agg()
@@ -326,7 +330,8 @@ def run(tier, seed):
                      'final_at_runs': r['extra'].get('final_at_runs')} for r in harness.pick_samples(results, seed, 3)],
         'rule': 'all skeletons x scheme S with send/delayed send/notify/ADV in fragments; complete BFS; per (state, op): '
                 'unmonitored run, clean monitored run (recording callable + recording property statechart + never-final '
-                'property), and one run per documented meta-event i with a property statechart final at i',
+                'property), and one run per documented meta-event i with a property statechart final at i; the smaller '
+                'skeletons once more on an interpreter created with ignore_contract=True',
     }
     return harness.finish('C10', tier, seed, 'model_checking', cov, viols, [
         "the deprecated, undocumented 'delayed event sent' meta-event is ignored",
@@ -336,7 +341,7 @@ def run(tier, seed):
 def replay(data):
     task = schemes._tupled(data['task'])
     spec = make_spec(task)
-    R0 = engine.Runner(spec)
+    R0 = engine.Runner(spec, interp_kwargs=IGN if len(task) > 4 and task[4] else None)
     hist = schemes._tupled(data['hist']) if data['hist'] else ()
     op = schemes._tupled(data['op'])
     print('chart:', describe(spec))
